@@ -1,6 +1,6 @@
 from . import session
 
-FAMILIES = [('events', 0.06), ('long', 0.04), ('specdeath', 0.4), ('mix', 0.6), ('death', 0.4), ('disc', 0.3)]
+FAMILIES = [('events', 0.06), ('long', 0.04), ('specdeath', 0.4), ('mix', 0.6), ('death', 0.4), ('disc', 0.3), ('solo', 0.5)]
 
 def main(ctx):
     session.run(ctx, "C18", FAMILIES, quick_count=100, thorough_count=4000, prop_mod=session.PROP_MODS.get("C18"))
